@@ -44,6 +44,7 @@ var uninterp = map[string]uninterpFn{
 	"enc_at":       {[]string{"Any", "Int"}, "Int", types.Typ[types.Int]},
 	"fill_of":      {[]string{"Any", "Int"}, "Any", types.NewInterfaceType(nil, nil)},
 	"list_off":     {[]string{"Any", "Int"}, "Int", types.Typ[types.Int]},
+	"height":       {[]string{"Any"}, "Int", types.Typ[types.Int]},
 	"str_unquote":  {[]string{"Str"}, "Str", types.Typ[types.String]},
 	"unquote_ok":   {[]string{"Str"}, "Bool", types.Typ[types.Bool]},
 	"has_space_rune": {[]string{"Str"}, "Bool", types.Typ[types.Bool]},
@@ -142,12 +143,17 @@ func (f *Frame) stdlibCall(callee *ssa.Function, args []Val, rt types.Type, pos,
 	case "fmt.Sprintf":
 		// constant formats with one %d argument: "i%d", "u%d", "f%d" ...
 		if lit, ok := s.litOf(T(0)); ok {
-			if strings.Count(lit, "%") == 1 && strings.HasSuffix(lit, "%d") {
+			if ix := strings.Index(lit, "%d"); strings.Count(lit, "%") == 1 && ix >= 0 {
 				elems := f.variadicElems(args[1], 1)
 				if elems != nil {
 					a := elems[0]
-					prefix := strings.TrimSuffix(lit, "%d")
+					prefix := lit[:ix]
 					r := app("sprintf_d", s.strLit(prefix), anyField("a.i", a))
+					if suffix := lit[ix+2:]; suffix != "" {
+						// <prefix>%d<suffix>: the same, followed by the literal suffix
+						s.assume("fmt.Sprintf(\"" + lit + "\", n) yields the prefix, the decimal digits of n and the suffix")
+						return S{app("sconcat", r, s.strLit(suffix)), types.Typ[types.String]}
+					}
 					// known small values give literal strings
 					for _, k := range []int{1, 2, 4, 8} {
 						s.fact(implies(eq(anyField("a.i", a), num(int64(k))), eq(r, s.strLit(fmt.Sprintf("%s%d", prefix, k)))))
